@@ -29,7 +29,7 @@ package predicate
 //@   ensures[value-or-error] (result0 != nil && result1 == nil) || (result0 == nil && result1 != nil)
 //@   ensures[value] result0 == p.anchor
 
-//@ props C06
+//@ props C06 C01 C02
 //@ func (p *Predicate) UUID
 //@   opt axioms pu-def
 //@   requires p != nil
